@@ -620,19 +620,18 @@ def ibigIsMultipleOf (W : Nat) (a b : SRepr) : Except PanicKind Bool := do
   let r ← ibigRem W a b
   pure r.mag.isZero
 
-/-- `TypedReprRef::is_multiple_of_dword(divisor)` (`is_multiple_of_const`); a zero divisor reaches
-    `dword % 0` resp. `debug_assert!(rhs != 0 …)`: an undocumented panic, not `panic_divide_by_0` -/
+/-- `TypedReprRef::is_multiple_of_dword(divisor)` (`is_multiple_of_const`, integer/src/div_ops.rs `mod repr`):
+    `if divisor == 0 { panic_divide_by_0() }` first (since /repo c27ca7f; before that a zero divisor reached
+    `dword % 0` resp. `debug_assert!(rhs != 0)`), then `shrink_dword(divisor)` selects the word / double-word
+    remainder kernel -/
 def isMultipleOfDword (W : Nat) (a : TRepr) (divisor : Nat) : Except PanicKind Bool :=
-  if divisor < 2 ^ W then
+  if divisor = 0 then .error .divideByZero
+  else if divisor < 2 ^ W then
     match a with
-    | .small d =>
-      if divisor = 0 then .error (assertErr "attempt to calculate the remainder with a divisor of zero")
-      else .ok (d % divisor = 0)
-    | .large ws =>
-      if divisor = 0 then .error (assertErr "rem_by_word: rhs != 0")
-      else do
-        let r ← remByWord W ws divisor
-        pure (r = 0)
+    | .small d => .ok (d % divisor = 0)
+    | .large ws => do
+      let r ← remByWord W ws divisor
+      pure (r = 0)
   else
     match a with
     | .small d => .ok (d % divisor = 0)
